@@ -107,6 +107,7 @@ def value_of(x):
 
 class State:
     def __init__(self, wmodel):
+        self.held = []          # (step, object as returned, its value when it was returned)
         self.kern = {}
         self.dm = {}
         self.wrap = {}
@@ -161,6 +162,7 @@ def do_op(st, e):
         try:
             res = (call_Fq if e["f"] else call_kernel)(kernel, pars, cutoff=cutoff)
             val = value_of(res)
+            st.held.append((e.get("n", -1), res, val))
         except Exception as exc:
             val = ["raised", type(exc).__name__]
         return key, val, not same(before, pars)
@@ -178,7 +180,9 @@ def do_op(st, e):
         before = copy.deepcopy(pars)
         key = "dm|%s|%s|%s" % (e["m"], e["q"], e["r"])
         try:
-            val = value_of(calc(**pars))
+            res = calc(**pars)
+            val = value_of(res)
+            st.held.append((e.get("n", -1), res, val))
         except Exception as exc:
             val = ["raised", type(exc).__name__]
         return key, val, not same(before, pars)
@@ -213,7 +217,9 @@ def do_op(st, e):
         before = copy.deepcopy(arg)
         key = "sv|%s|%s|%s" % (st.wmodel[w], e["q"], r)
         try:
-            val = value_of(inst.evalDistribution(arg))
+            res = inst.evalDistribution(arg)
+            val = value_of(res)
+            st.held.append((e.get("n", -1), res, val))
         except Exception as exc:
             val = ["raised", type(exc).__name__]
         return key, val, not same(before, arg)
@@ -257,11 +263,12 @@ def main():
     emit({"tid": req["tid"], "ev": "begin", "wmodel": req["wmodel"]})
     for n, e in enumerate(req["steps"]):
         try:
-            key, val, changed = do_op(st, e)
+            key, val, changed = do_op(st, dict(e, n=n))
+            held_changed = [k for k, obj, snap in st.held if value_of(obj) != snap]
         except Exception as exc:
             emit({"tid": req["tid"], "ev": "HarnessError", "error": repr(exc), "tb": traceback.format_exc()[-1500:], "step": e})
             return
-        emit(dict(e, tid=req["tid"], ev="Op", key=key, val=val, args_changed=bool(changed), n=n))
+        emit(dict(e, tid=req["tid"], ev="Op", key=key, val=val, args_changed=bool(changed), n=n, held_changed=held_changed))
 
 
 if __name__ == "__main__":
